@@ -16,7 +16,7 @@ Theorem generated_shape fx sha1 c o iss t :
   ((0 <= ob_serial o < 2 ^ 159)%Z -> (cc_serial c < 2 ^ 63)%Z -> (length (int_content (t_serial t)) <= 20)%nat).
 Proof.
   unfold gen_tcert. intros H M. rewrite M in H. cbn [no_manip m_version m_outer_sigalg m_sigvalue m_tbs_sigalg m_tbs_pkalg m_tbs_pk manip_oid] in H.
-  destruct (cc_serial c <? 0)%Z eqn:Esn; [discriminate|]. apply Z.ltb_ge in Esn.
+  destruct ((cc_serial c <? 0)%Z || (9223372036854775807 <? cc_serial c)%Z) eqn:Esn; [discriminate|]. apply Bool.orb_false_elim in Esn as [Esn _]. apply Z.ltb_ge in Esn.
   destruct (parse_rdn (cc_subject c)); [|discriminate].
   destruct (to_time_struct _ _ _); [|discriminate].
   destruct (sig_oid (effective_sigalg c)) as [[so rsa]|] eqn:Eg; [|discriminate].
